@@ -143,6 +143,9 @@ struct HookState {
     fault_skipped: bool,
     used_devfull: bool,
     used_dangling: bool,
+    /// replace the (still empty) archive directory by a regular file at the final step of the first rotation
+    dirfile: bool,
+    used_dirfile: bool,
     images_to: Option<PathBuf>,
     images: Vec<ImageMeta>,
     abort_at: Option<usize>,
@@ -169,6 +172,17 @@ fn plant_obstacle(dest: &Path) {
 fn remove_obstacles(root: &Path, kind: &RollerKind) {
     for (_, name) in kind.managed() {
         let p = root.join(&name);
+        // a regular file where a directory of the pattern belongs
+        let mut anc = p.parent();
+        while let Some(a) = anc {
+            if a == root {
+                break;
+            }
+            if std::fs::symlink_metadata(a).map(|m| m.is_file()).unwrap_or(false) {
+                let _ = std::fs::remove_file(a);
+            }
+            anc = a.parent();
+        }
         // a dangling link in place of a slot directory
         if let Some(d) = p.parent() {
             if std::fs::symlink_metadata(d).map(|m| m.file_type().is_symlink()).unwrap_or(false) {
@@ -232,6 +246,7 @@ pub struct RunOut {
     pub fault_skipped: bool,
     pub used_devfull: bool,
     pub used_dangling: bool,
+    pub used_dirfile: bool,
     pub retained: Vec<Vec<u8>>,
     pub app: Option<Box<dyn Append>>,
     pub next_seq: u32,
@@ -244,8 +259,12 @@ pub fn run_history(cfg: &Cfg, root: &Path, fault_at: Option<usize>, images_to: O
 }
 
 pub fn run_history_with(cfg: &Cfg, root: &Path, fault_at: Option<usize>, images_to: Option<PathBuf>, abort_at: Option<usize>, devfull: bool) -> RunOut {
+    run_history_mode(cfg, root, fault_at, images_to, abort_at, devfull, false)
+}
+
+pub fn run_history_mode(cfg: &Cfg, root: &Path, fault_at: Option<usize>, images_to: Option<PathBuf>, abort_at: Option<usize>, devfull: bool, dirfile: bool) -> RunOut {
     let kind = cfg.roller();
-    let st = Rc::new(RefCell::new(HookState { fault_at, images_to, abort_at, devfull, ..Default::default() }));
+    let st = Rc::new(RefCell::new(HookState { fault_at, images_to, abort_at, devfull, dirfile, ..Default::default() }));
     let acks_count = Rc::new(RefCell::new(0usize));
     {
         let st = st.clone();
@@ -299,6 +318,20 @@ pub fn run_history_with(cfg: &Cfg, root: &Path, fault_at: Option<usize>, images_
                 let dest_dir = dest.parent().map(|p| p.to_path_buf());
                 let per_index_dir = pattern_rel.contains("{}/");
                 let _ = &dest_dir;
+                // the archive directory (still empty: first rotation, final step) is replaced by a regular file
+                let top = pattern_rel.split('/').next().map(|c| root.join(c));
+                let top_is_empty_dir = top.as_ref().map(|t| std::fs::read_dir(t).map(|mut d| d.next().is_none()).unwrap_or(false)).unwrap_or(false);
+                if s.dirfile && name == "rotate.final" && pattern_rel.contains('/') && top_is_empty_dir {
+                    let t = top.unwrap();
+                    if std::fs::remove_dir(&t).is_ok() && std::fs::write(&t, b"not a directory").is_ok() {
+                        s.used_dirfile = true;
+                        s.planted = Some(t);
+                    } else {
+                        s.fault_skipped = true;
+                    }
+                    s.rotation += 1;
+                    return;
+                }
                 // this shift is a no-op (slot `arg` is still empty) but the next one (arg-1 -> arg) is not: the
                 // (empty or missing) directory of slot `arg` is replaced by a dangling link, as when the slot was
                 // moved to a volume that is not mounted. Making that directory must then fail.
@@ -335,7 +368,7 @@ pub fn run_history_with(cfg: &Cfg, root: &Path, fault_at: Option<usize>, images_
             }
         })));
     }
-    let mut out = RunOut { acks: vec![], points: 0, rotations: 0, images: vec![], failed_append_seq: None, problems: vec![], planted: None, fault_skipped: false, used_devfull: false, used_dangling: false, retained: vec![], app: None, next_seq: 0 };
+    let mut out = RunOut { acks: vec![], points: 0, rotations: 0, images: vec![], failed_append_seq: None, problems: vec![], planted: None, fault_skipped: false, used_devfull: false, used_dangling: false, used_dirfile: false, retained: vec![], app: None, next_seq: 0 };
     let app = match build(cfg, root, cfg.script()) {
         Ok(a) => a,
         Err(e) => {
@@ -374,6 +407,7 @@ pub fn run_history_with(cfg: &Cfg, root: &Path, fault_at: Option<usize>, images_
     out.fault_skipped = s.fault_skipped;
     out.used_devfull = s.used_devfull;
     out.used_dangling = s.used_dangling;
+    out.used_dirfile = s.used_dirfile;
     out.retained = s.retained.clone();
     out.problems.extend(s.problems.iter().cloned());
     out.app = Some(app);
@@ -396,6 +430,7 @@ fn continue_appends_checked(
 ) -> (Vec<bool>, Option<(String, String)>) {
     let mut oks = vec![];
     for _ in 0..n {
+        let before = check.and_then(|(root, kind)| chunk_contents(root, kind).ok());
         let a = append_frame(app, 1, *seq, big, false);
         *seq += 1;
         oks.push(a.ok);
@@ -403,6 +438,28 @@ fn continue_appends_checked(
         if let Some((root, kind)) = check {
             if let Err(e) = stream_check(root, kind, acks) {
                 return (oks, Some(e));
+            }
+            // an archive is only overwritten when it is due for eviction: whatever was archived before this
+            // append is still archived after it, except the chunk in the last slot when the slot before it was
+            // occupied (a hole in the window - left behind by an interrupted rotation - is tolerated, not repaired
+            // by throwing the oldest chunk away)
+            if let (Some(before), Ok(after)) = (before, chunk_contents(root, kind)) {
+                let managed = kind.managed();
+                let last = managed.last().map(|(_, n)| n.clone());
+                // (a window of one slot: whatever is in it is due whenever the active file is rolled)
+                let before_last = if managed.len() >= 2 { Some(managed[managed.len() - 2].1.clone()) } else { None };
+                for (name, c) in &before {
+                    if name == ACTIVE || c.is_empty() || after.iter().any(|(_, x)| x == c) {
+                        continue;
+                    }
+                    let due = Some(name) == last.as_ref() && before_last.as_ref().map(|b| before.iter().any(|(n, _)| n == b)).unwrap_or(true);
+                    if !due {
+                        return (oks, Some(("archive-lost-without-being-due-for-eviction".to_owned(), format!(
+                            "{} ({} bytes) existed before an append and is gone after it, although {}; before: {:?}, after: {:?}",
+                            name, c.len(), if Some(name) == last.as_ref() { "nothing was shifted into its slot" } else { "it was not in the last slot" },
+                            before.iter().map(|(n, _)| n.clone()).collect::<Vec<_>>(), after.iter().map(|(n, _)| n.clone()).collect::<Vec<_>>()))));
+                    }
+                }
             }
         }
     }
@@ -496,7 +553,12 @@ fn one_history(rep: &mut Report, _rng: &mut Rng, idx: u64) {
             let fs = Scratch::new("c08f");
             // alternative fault kinds where they apply: ENOSPC on a compressed archive, dangling link on a slot directory
             let devfull = (cfg.comp != Comp::None || cfg.pattern_rel.contains("{}/")) && (p + variant) % 2 == 0;
-            let mut out = run_history_with(&cfg, &fs.path, Some(p), None, None, devfull);
+            // a third fault kind where it applies (it applies at the final step of the first rotation only)
+            let dirfile = !devfull && cfg.pattern_rel.contains('/');
+            let mut out = run_history_mode(&cfg, &fs.path, Some(p), None, None, devfull, dirfile);
+            if out.used_dirfile {
+                rep.count("faults_injected_as_a_file_in_place_of_the_archive_directory", 1);
+            }
             if out.used_devfull {
                 rep.count("faults_injected_as_enospc_on_the_archive", 1);
             }
@@ -504,7 +566,7 @@ fn one_history(rep: &mut Report, _rng: &mut Rng, idx: u64) {
                 rep.count("faults_injected_as_dangling_link_on_a_slot_directory", 1);
             }
             let cont_name = ["same appender", "restarted appender", "obstruction removed immediately, restarted appender, many rotations"][variant];
-            let pt = json!({"kind": if out.used_dangling { "filesystem fault (the destination slot's directory name is taken by a dangling symbolic link)" } else if out.used_devfull { "filesystem fault (archive slot is a link to /dev/full: writes fail with ENOSPC)" } else { "filesystem fault (non-empty directory at the step's destination)" },
+            let pt = json!({"kind": if out.used_dirfile { "filesystem fault (the archive directory is replaced by a regular file)" } else if out.used_dangling { "filesystem fault (the destination slot's directory name is taken by a dangling symbolic link)" } else if out.used_devfull { "filesystem fault (archive slot is a link to /dev/full: writes fail with ENOSPC)" } else { "filesystem fault (non-empty directory at the step's destination)" },
                 "point_index": p,
                 "continuation": cont_name});
             for (sig, what) in &out.problems {
@@ -597,6 +659,19 @@ fn one_history(rep: &mut Report, _rng: &mut Rng, idx: u64) {
             if let Err((sig, what)) = stream_check(&fs.path, &kind, &acks) {
                 fail(rep, &format!("fault-recovered:{}", sig), pt.clone(), what);
                 continue;
+            }
+            // "resumes writing AND rotating": every record of the continuation is larger than the limit, so the
+            // active file holds at most the last one
+            let active = std::fs::read(fs.path.join(ACTIVE)).unwrap_or_default();
+            // (a scripted trigger that still has scripted decisions left does not fire on every record)
+            let fires_every_time = !cfg.pre || restart;
+            if let Ok(frames) = parse_stream(&active) {
+                if fires_every_time && frames.len() > 1 {
+                    fail(rep, "fault:rotation-did-not-resume-after-the-obstruction-was-removed", pt.clone(), format!(
+                        "after {} appends of {} bytes (limit {}) the active file holds {} records: nothing is rotated any more, although every append returned Ok",
+                        n_after, big, cfg.limit, frames.len()));
+                    continue;
+                }
             }
             rep.count("fault_runs_recovered", 1);
         }
